@@ -26,6 +26,7 @@ representation.
 """
 import io
 import itertools
+import os
 
 from .. import contracts, kmon
 from ..core import MonitorViolation
@@ -88,7 +89,7 @@ MUST_REACH = ['debian.deb822:Deb822Dict.__setitem__', 'debian.deb822:Deb822Dict.
               'debian._util:LinkedList.remove_node', 'debian._util:_CaseInsensitiveString.__eq__']
 
 # total numbers of RANDOM histories per tier (the enumerated part comes on top)
-RANDOM_HISTORIES = {'quick': 6000, 'thorough': 420000}
+RANDOM_HISTORIES = {'quick': 6000, 'thorough': 300000}
 MAX_OPS = {'quick': 30, 'thorough': 40}
 ENUM_LEN = {'quick': 3, 'thorough': 4}
 
@@ -826,6 +827,11 @@ def shrink(case, key, budget=250):
 
 
 def setup(ctx):
+    if os.environ.get('VP_C09_NO_K'):
+        # self-test switch: leave the auxiliary K monitors off to show that the deciding boundary monitor M
+        # fires on its own.  Such a run can never be reported as held: the K1/K2 floors make it INCONCLUSIVE.
+        ctx.extra['k_methods_wrapped'] = {'K1': 0, 'K2': 0}
+        return
     ctx.extra['k_methods_wrapped'] = {'K1': kmon.attach_K1(), 'K2': kmon.attach_K2()}
 
 
